@@ -17,6 +17,21 @@ def _strip_payload(e):
     return e, None
 
 
+def _payload_roots(e):
+    """the set of vectors whose variant payload e may be: (x as V).0 -> {x}; a phi of payloads -> union"""
+    if e[0] == "phi":
+        out = set()
+        for a in e[2]:
+            r = _payload_roots(a)
+            if not r:
+                return set()
+            out |= r
+        return out
+    if e[0] == "field" and e[2] == "0" and e[1][0] == "variant":
+        return {e[1][1]}
+    return set()
+
+
 def rev_parity(crate):
     """delegating comparisons: operands swapped <=> result reversed (eq: swap allowed, never negated)"""
     res = []
@@ -44,10 +59,18 @@ def rev_parity(crate):
         for bb, t, fn, e in calls:
             a0, v0 = _strip_payload(b.e_operand(t["args"][0]))
             a1, v1 = _strip_payload(b.e_operand(t["args"][1]))
+            roots0, roots1 = _payload_roots(b.e_operand(t["args"][0])), _payload_roots(b.e_operand(t["args"][1]))
             if a0 == self_p and a1 == other_p:
                 swapped = False
             elif a0 == other_p and a1 == self_p:
                 swapped = True
+            elif (fn["name"] in ("eq", "ne") and b.name in ("eq", "ne") and roots0 and roots1
+                  and roots0 | roots1 == {self_p, other_p} and roots0 == roots1):
+                # merged arms `(Fixed(f), Dynamic(d)) | (Dynamic(d), Fixed(f)) => d.eq(f)`: each operand is a payload of self
+                # in one alternative and of other in the other one; equality is symmetric, so the pairing does not matter
+                res.append((b, "%s|%s(merged arms)" % (b.key, fn["name"]), "pass",
+                            "equality delegated on the payloads of self and other (merged match arms; symmetric)"))
+                continue
             else:
                 # comparison of raw word slices / word iterators instead of the vectors: lexicographic order (or slice
                 # equality) is the numeric one only when both sides have the same number of words. Equal, explicit word
@@ -339,6 +362,15 @@ def _taint(e):
     return "len" if state["len"] else ("data" if state["data"] else "const")
 
 
+def payload_free(e):
+    """replace (x as V).0 by x: which variant's payload is hashed does not matter for the taint"""
+    if not isinstance(e, tuple):
+        return e
+    if e and e[0] == "field" and e[2] == "0" and e[1][0] == "variant":
+        return payload_free(e[1][1])
+    return tuple(payload_free(x) if isinstance(x, tuple) else x for x in e)
+
+
 def hash_taint(crate):
     res = []
     for b in crate.bodies:
@@ -378,8 +410,45 @@ def hash_taint(crate):
                                                 "which == ignores" % show(src)))
                                 else:
                                     res.append((b, lkey, "pass", "number of hashed words is %s-dependent" % tb))
+        helper_sinks = []
+        if sinks == 0:
+            # the loop feeding the hasher moved into a helper introduced after the review: taint its sinks with the
+            # helper's parameters replaced by the actual arguments
+            for bb, t, fn in b.iter_calls():
+                h = crate.new_helper(fn)
+                if h is None:
+                    continue
+                args = [b.e_operand(a) for a in t["args"]]
+                mapping = {("param", h.local_name(i + 1)): args[i] for i in range(min(len(args), h.arg_count))}
+                for hbb, ht, hfn in h.iter_calls():
+                    tr = (hfn or {}).get("trait", "")
+                    if not (tr.endswith("hash::Hash") or tr.endswith("hash::Hasher")):
+                        continue
+                    hargs = [h.e_operand(a) for a in ht["args"]]
+                    val = hargs[0] if tr.endswith("hash::Hash") else (hargs[1] if len(hargs) > 1 else hargs[0])
+                    bounds = []
+                    for hdr, body in h.loops():
+                        if hbb in body:
+                            for cb2, ct2, cfn2 in h.iter_calls():
+                                if cb2 in body and cfn2 and cfn2["name"] in ("next", "next_back"):
+                                    a = h.e_operand(ct2["args"][0])
+                                    if a[0] == "var":
+                                        bounds.append(h.iter_source(a[2]))
+                    helper_sinks.append((h, payload_free(mir.subst_expr(val, mapping)), [mir.subst_expr(x, mapping) for x in bounds]))
+            for h, val, bounds in helper_sinks:
+                sinks += 1
+                tv = _taint(val)
+                tb = [_taint(x) for x in bounds]
+                key = "%s|sink in helper %s" % (b.key, h.name)
+                if tv == "len" or "len" in tb:
+                    res.append((b, key, "violation", "the helper %s feeds `%s` (%d-word loop bounds %s) to the hasher, which depends on the "
+                                "length" % (h.name, show(val)[:60], len(bounds), [show(x)[:50] for x in bounds])))
+                else:
+                    res.append((b, key, "pass", "helper %s feeds %s-dependent words, count %s" % (h.name, tv, tb)))
         if b.self_family == "Bv":
             sw = [1 for sb, t in b.iter_switches() if b.switch_cond(sb)[0] == ("discr", ("param", "self"))]
+            if sw and helper_sinks and len({(h.path, show(v), tuple(show(x) for x in bs)) for h, v, bs in helper_sinks}) == 1:
+                sw = []      # both arms hand their own payload to the same helper with the same other arguments
             res.append((b, "%s|mode-independent" % b.key, "violation" if sw else "pass",
                         "branches on the storage variant around the hasher" if sw else "no branch on the storage variant"))
         if sinks == 0:
